@@ -282,7 +282,30 @@ def r07_c(prog: Program, chk: Check) -> None:
     chk.ob("R07.c", "signature::Signature.can_assign::tail::guard", bool(guard), site, "the tail loop may only be skipped when a ParamSpec / ellipsis consumed the rest")
 
 
+def r07_e(prog: Program, chk: Check) -> None:
+    chk.rule("R07.e", "an actual parameter is marked consumed only where it is paired with a named expected parameter; the expected *args/**kwargs arms (which may supply nothing) consume nothing", floor=3)
+    fn = prog.func("signature", "Signature.can_assign")
+    n = 0
+    for c in calls_in(fn, "add", nested=False):
+        if not (isinstance(c.func, ast.Attribute) and isinstance(c.func.value, ast.Name) and c.func.value.id.startswith("consumed_")):
+            continue
+        n += 1
+        kinds = sorted({d.split(".")[-1] for g, pol in guards_of(c, fn) if pol for d in [dotted(x) or "" for x in ast.walk(g)] if d.startswith("ParameterKind.") and "my_param" in norm(g)})
+        bad = [k for k in kinds if k in ("VAR_POSITIONAL", "VAR_KEYWORD")]
+        chk.ob(
+            "R07.e",
+            f"signature::Signature.can_assign::{c.func.value.id}.add::in={'|'.join(kinds) or '?'}",
+            not bad,
+            prog.site("signature", c),
+            f"`{norm(c)[:60]}` marks an actual parameter as supplied inside the expected {bad} arm: a variadic expected parameter may pass zero arguments, "
+            "so a required actual parameter is then never reported as extra",
+        )
+    if n < 3:
+        raise AnchorError("Signature.can_assign: consumed_* bookkeeping not found")
+
+
 def run(prog: Program, chk: Check) -> None:
+    r07_e(prog, chk)
     r07_a(prog, chk)
     r07_b(prog, chk)
     r07_c(prog, chk)
